@@ -270,10 +270,24 @@ pub fn run(cfg: &Cfg, rep: &mut Report) {
         }
         let k = names.len() as u64;
         let names_ref = &names;
-        run_stage(cfg, rep, "block-ngrams", k * k * k, |idx, rng, r| {
-            let trip = [(idx / (k * k)) as usize, ((idx / k) % k) as usize, (idx % k) as usize];
+        // each triple several times, behind different module-level preludes whose strings come from the
+        // dictionary (extensions, source extensions, imports, names): structure must not depend on them
+        let rounds = cfg.n(4, 64);
+        run_stage(cfg, rep, "block-ngrams", k * k * k * rounds, |idx, rng, r| {
+            let t = idx % (k * k * k);
+            let trip = [(t / (k * k)) as usize, ((t / k) % k) as usize, (t % k) as usize];
             let mut gen = Gen::new(10);
-            let mut insts = vec![instantiate_symbol(rng, &mut gen, 0), instantiate_symbol(rng, &mut gen, 3)];
+            let mut insts = vec![];
+            if idx >= k * k * k {
+                for _ in 0..rng.range(1, 3) {
+                    let name = *rng.pick(&["SourceExtension", "Extension", "ExtInstImport", "ModuleProcessed", "String", "SourceExtension"]);
+                    if let Some(i) = gen.inst(rng, d0.inst(name), Form::Max) {
+                        insts.push(i);
+                    }
+                }
+            }
+            insts.push(instantiate_symbol(rng, &mut gen, 0));
+            insts.push(instantiate_symbol(rng, &mut gen, 3));
             for t in trip {
                 match gen.inst(rng, d0.inst(&names_ref[t]), Form::Min) {
                     Some(i) => insts.push(i),
